@@ -93,7 +93,7 @@ pub fn run(ctx: &mut Ctx) {
         }
     }
     ctx.report.exhaustive = Some(complete);
-    ctx.note("exhaustive part: all 2- and 3-point paths with points on the integer grid [-3,3]^2 (x8 px) x 4 path types x 11 length classes x 4 modes");
+    ctx.note("exhaustive part: all 2- and 3-point paths with points on the integer grid [-3,3]^2 (x8 px) x 4 path types x 13 length classes x 4 modes");
 
     // ---- random control-point lists
     let n = ctx.n(40_000, 1_200_000);
@@ -130,7 +130,10 @@ fn all_lengths(ctx: &mut Ctx, index: u64, mode: GameMode, pts: &[PathControlPoin
     let nd = nat.dist();
     let fr = r.as_mut().map_or(0.37, |r| r.f());
     let fr2 = r.as_mut().map_or(0.61, |r| r.f());
-    let classes: [(&str, f64); 11] = [
+    let classes: [(&str, f64); 13] = [
+        // positive lengths below the floating-point epsilon are still lengths
+        ("below_epsilon", 1e-17),
+        ("min_positive", f64::MIN_POSITIVE),
         // requested lengths next to the natural one: the request is honoured exactly, however close
         ("just_above_natural", nd + 4e-4 * (0.1 + fr)),
         ("just_below_natural", nd - 4e-4 * (0.1 + fr2)),
